@@ -7,7 +7,7 @@
 
    An event of the model carries: publisher, kind, transaction id, (for a revert) the reverted transaction id, and
    the number of entries that were on disk when it was published. *)
-From FL Require Import Engine.Model Engine.Spec Engine.E3Base Engine.E3Events Engine.E3Variants.
+From FL Require Import Engine.Model Engine.Spec Engine.E3Base Engine.E3Events Engine.E3Variants Engine.E3Later.
 
 (* every acknowledged (non-preview) write has published an event *)
 Theorem C16_at_least_once : forall s, reachable s -> events_at_least_once s.
@@ -196,6 +196,75 @@ Example C16_read_failed_savemeta_nonvacuous :
     length (persisted sd) = 1%nat /\ map ev_tid (published sd) = [0%nat].
 Proof.
   do 6 eexists. repeat (split; [vm_compute; reflexivity|]). vm_compute; reflexivity.
+Qed.
+
+(* ---- graceful shutdown of the commander (AClose / ACloseOk) ------------------------------------------------------ *)
+(* a close publishes nothing, from any state: whether the batch inside the store call is written (ACloseOk) or not
+   (AClose), nobody is acknowledged and the monitor is not called *)
+Theorem C16_close_publishes_nothing : forall s a s', a = AClose \/ a = ACloseOk -> step s a = Some s' ->
+  published s' = published s.
+Proof. exact e3_close_publishes_nothing. Qed.
+Print Assumptions C16_close_publishes_nothing.
+
+(* no event is owned by the request of an entry the close drops from the batcher's queue: in any reachable state,
+   after the close (the owner of a queued entry has not finished -- a clause of the E2 invariant, [E2Inv.b_own] --
+   while the publisher of every event has, C16_event_publisher_succeeded) *)
+Theorem C16_no_event_for_dropped_entry : forall s a s', a = AClose \/ a = ACloseOk -> reachable s ->
+  step s a = Some s' -> forall e, In e (v_pending s) -> forall ev, In ev (published s') -> ev_tid ev <> e_owner e.
+Proof. exact e3_no_event_for_dropped_entry. Qed.
+Print Assumptions C16_no_event_for_dropped_entry.
+
+(* the same for the entries of the batch inside the store call: written by ACloseOk or not, their requests are not
+   acknowledged by the close and own no event *)
+Theorem C16_close_no_event_for_inflight : forall s a s', a = AClose \/ a = ACloseOk -> reachable s ->
+  step s a = Some s' ->
+  forall e, In e (v_pending s) \/ (exists b, v_batch s = Some b /\ In e b) ->
+  forall ev, In ev (published s') -> ev_tid ev <> e_owner e.
+Proof. exact e3_close_no_event_for_inflight. Qed.
+Print Assumptions C16_close_no_event_for_inflight.
+
+(* non-vacuity. Requests 1 and 2 (creates on disjoint accounts) both reach [PWait]: the entry of 1 is the batch inside
+   the store call, the entry of 2 is queued behind it. ACloseOk: the entry of 1 is on disk, the entry of 2 is nowhere,
+   nothing was published, both requests end [RCrashed] (never acknowledged); [events_after_persist] holds of the final
+   state (C16_after_persist; its executable necessary condition [eap_b] is computed). AClose from the same state:
+   nothing on disk, nothing published, both [RCrashed]. *)
+Definition c16_close_prefix : list action :=
+  AStart 1%nat (mk_create 0 0 false [(world, 5%N, 10%Z)]) :: repeat (AResume 1%nat) 8 ++
+  AStart 2%nat (mk_create 0 0 false [(world, 6%N, 10%Z)]) :: repeat (AResume 2%nat) 8.
+Example C16_close_example :
+  exists s1 s s',
+    run init c16_close_prefix = Some s1 /\
+    option_map (map e_owner) (v_batch s1) = Some [1%nat] /\ map e_owner (v_pending s1) = [2%nat] /\
+    map (fun p => (fst p, t_pc (snd p), t_resp (snd p))) (threads s1) = [(1%nat, PWait, None); (2%nat, PWait, None)] /\
+    persisted s1 = [] /\ published s1 = [] /\
+    step s1 ACloseOk = Some s /\
+    map e_owner (persisted s) = [1%nat] /\ v_batch s = None /\ v_pending s = [] /\ published s = [] /\
+    map (fun p => (fst p, t_pc (snd p), t_resp (snd p))) (threads s) =
+      [(1%nat, PFinished, Some RCrashed); (2%nat, PFinished, Some RCrashed)] /\
+    eap_b s = true /\
+    step s1 AClose = Some s' /\
+    persisted s' = [] /\ v_batch s' = None /\ v_pending s' = [] /\ published s' = [] /\
+    map (fun p => (fst p, t_pc (snd p), t_resp (snd p))) (threads s') =
+      [(1%nat, PFinished, Some RCrashed); (2%nat, PFinished, Some RCrashed)].
+Proof.
+  do 3 eexists. repeat (split; [vm_compute; reflexivity|]). vm_compute; reflexivity.
+Qed.
+
+(* the same after a committed request: request 0 has completed and published its event before 1 and 2 start; the
+   close leaves exactly that event ([eap_b] is then not trivially true), none of request 1 (entry written by the
+   close) nor of request 2 (entry dropped) *)
+Example C16_close_example_after_commit :
+  exists s1 s,
+    run init ((AStart 0%nat (mk_create 0 0 false [(world, 4%N, 10%Z)]) :: repeat (AResume 0%nat) 8 ++
+               APersistOk :: repeat (AResume 0%nat) 3) ++ c16_close_prefix) = Some s1 /\
+    option_map (map e_owner) (v_batch s1) = Some [1%nat] /\ map e_owner (v_pending s1) = [2%nat] /\
+    step s1 ACloseOk = Some s /\
+    map e_owner (persisted s) = [0%nat; 1%nat] /\ map ev_tid (published s) = [0%nat] /\ published s = published s1 /\
+    map (fun p => (fst p, t_pc (snd p), t_resp (snd p))) (threads s) =
+      [(0%nat, PFinished, Some (ROk (Some 0%nat))); (1%nat, PFinished, Some RCrashed); (2%nat, PFinished, Some RCrashed)] /\
+    eap_b s = true.
+Proof.
+  do 2 eexists. repeat (split; [vm_compute; reflexivity|]). vm_compute; reflexivity.
 Qed.
 
 (* ---- non-vacuity: two creates (the second under key 8), a revert of the first under key 7, the second create
